@@ -21,6 +21,7 @@ from __future__ import annotations
 
 import ast
 import re
+import time
 from fractions import Fraction
 from pathlib import Path
 
@@ -293,7 +294,10 @@ def snap_diff(a, b):
 def constant_operations(c, name):
     """(label, thunk) -- the ways library and user code touches an exported constant.  Thunks return the new object(s)
     so that identity with the constant can be checked."""
+    import copy  # pylint: disable=import-outside-toplevel
+    import pickle  # pylint: disable=import-outside-toplevel
     from symplyphysics import Quantity, convert_to_si, convert_to, units  # pylint: disable=import-outside-toplevel
+    from symplyphysics.core.convert import evaluate_expression, evaluate_quantity  # pylint: disable=import-outside-toplevel
     from symplyphysics.core.dimensions import dimension_to_si_unit  # pylint: disable=import-outside-toplevel
     from sympy.physics.units.systems.si import dimsys_SI  # pylint: disable=import-outside-toplevel
     other = units.length if dimsys_SI.equivalent_dims(c.dimension, units.energy) else units.energy
@@ -308,6 +312,23 @@ def constant_operations(c, name):
         ("convert_to(c, SI unit)", lambda: convert_to(c, dimension_to_si_unit(c.dimension)), False),
         ("str / code_str / latex", lambda: (str(c), sympy.latex(c)), False),
         ("Quantity(c, display_symbol='tmp')", lambda: Quantity(c, display_symbol="tmp"), True),
+        # numeric evaluation helpers, low precision first (a cached evaluation would keep the first precision used)
+        ("evaluate_expression(2*c, evaluate=True, n=3)", lambda: evaluate_expression(2 * c, evaluate=True, n=3), False),
+        ("evaluate_expression(c**2/c + c, evaluate=True, chop=True)",
+            lambda: evaluate_expression(c**2 / c + c, evaluate=True, chop=True), False),
+        ("evaluate_expression(c, evaluate=True, n=40, maxn=200)", lambda: evaluate_expression(c, evaluate=True, n=40, maxn=200), False),
+        ("evaluate_expression(3*c)", lambda: evaluate_expression(3 * c), False),
+        ("evaluate_quantity(c, n=3)", lambda: evaluate_quantity(c, n=3), True),
+        ("evaluate_quantity(5*c, n=2, chop=True)", lambda: evaluate_quantity(5 * c, n=2, chop=True), True),
+        ("sympy.N(c, 3) / c.evalf(3) / c.n(3)", lambda: (sympy.N(c, 3), c.evalf(3), (2 * c).n(3)), False),
+        # copying and serialisation (SymPy rebuilds objects from .args; on the pinned tree these raise TypeError)
+        ("copy.copy(c)", lambda: copy.copy(c), False),
+        ("copy.deepcopy(c)", lambda: copy.deepcopy(c), False),
+        ("pickle round trip of c", lambda: pickle.loads(pickle.dumps(c)), False),
+        ("copy.copy(2*c + c**2)", lambda: copy.copy(2 * c + c**2), False),
+        ("copy.deepcopy(2*c + c**2)", lambda: copy.deepcopy(2 * c + c**2), False),
+        ("copy.deepcopy([c, {'k': 3*c}])", lambda: copy.deepcopy([c, {"k": 3 * c}]), False),
+        ("pickle round trip of c*c/2", lambda: pickle.loads(pickle.dumps(c * c / 2)), False),
     ]
 
 
@@ -390,6 +411,7 @@ def stability(ctx, rows_first):
     nops = 0
     reported = 0
     names = [n for n in base]
+    outcomes = {}
 
     def report(changes, operation, kind):
         nonlocal reported
@@ -409,6 +431,9 @@ def stability(ctx, rows_first):
         for label, _thunk, fresh in constant_operations(c, name):
             res, fresh, err = run_operation(mod, name, label)
             nops += 1
+            oc = outcomes.setdefault(label, {})
+            cls = "returned" if err is None else err.split(":")[0]
+            oc[cls] = oc.get(cls, 0) + 1
             if fresh and err is None and res is getattr(mod, name):
                 if reported < 12:
                     reported += 1
@@ -423,6 +448,7 @@ def stability(ctx, rows_first):
                 report(d, f"{label} with c = quantities.{name}", "operation")
                 cur = new
     ctx.coverage["stability_operations"] = nops
+    ctx.coverage["stability_operation_outcomes"] = outcomes
 
     users = catalogue_users(ctx)
     sample = users if not ctx.quick else ctx.rng.sample(users, min(30, len(users)))
@@ -446,6 +472,29 @@ def stability(ctx, rows_first):
     ctx.coverage["stability_calculate_calls"] = ncalls
     ctx.coverage["stability_calculate_calls_returned"] = nok
 
+    # bulk: many throw-away quantities (parameter sweeps, plots, the test-suite create tens of thousands); the constants
+    # are the oldest entries of the SI registries
+    from symplyphysics import Quantity, units  # pylint: disable=import-outside-toplevel
+    total = ctx.pick(70000, 300000)
+    step = 1 << 14
+    made = 0
+    tb = time.time()
+    while made < total:
+        n = min(step, total - made)
+        for i in range(n):
+            if i & 1:
+                Quantity(1)
+            else:
+                Quantity((i % 7 + 1) * units.meter)
+        made += n
+        new = snapshot(mod)
+        d = snap_diff(cur, new)
+        if d:
+            report(d, f"construction of {made} throw-away quantities (Quantity(1), Quantity(k*units.meter))", "bulk")
+            cur = new
+    ctx.coverage["stability_bulk_quantities"] = made
+    ctx.coverage["stability_bulk_s"] = round(time.time() - tb, 1)
+
     # final re-read with the translator itself: what was proved must still be what the module says
     final = snapshot(mod)
     d = snap_diff(base, final)
@@ -459,9 +508,9 @@ def stability(ctx, rows_first):
             report([(r["name"], "translated value / dimension", (r.get("term"), r.get("dim")),
                 (a or {}).get("term"), )], "the whole stability stage", "final")
     ctx.coverage["stability_changes"] = reported
-    ctx.evaluated(nops + ncalls, nops)
+    ctx.evaluated(nops + ncalls + made, nops)
     ctx.sample({"stability": f"{nops} operations on {len(names)} constants, {nimp} modules imported, {ncalls} calculate_* calls "
-        f"({nok} returned), {reported} changes"})
+        f"({nok} returned), {made} throw-away quantities, {reported} changes"})
 
 # ---------------------------------------------------------------------------------------------
 
